@@ -17,12 +17,15 @@
 #include "util/parse.h"
 #include "xfrm/stream.h"
 #include "xfrm/wrap.h"
+#include "tar/tar.h"
+#include "sqfs/dir_entry.h"
 #include "hexio.h"
 #include <errno.h>
 #include <fcntl.h>
 #include <unistd.h>
 #include <sys/types.h>
 #include <sys/stat.h>
+#include <sys/socket.h>
 
 char *record_to_memory(sqfs_istream_t *fp, size_t size);          /* lib/tar/src/internal.h */
 void c12_peek_istream(sqfs_istream_t *s, int *eof, size_t *off, size_t *used);
@@ -32,6 +35,8 @@ void c12_peek_xistream(sqfs_istream_t *s, size_t *off, size_t *used);
 size_t c12_xistream_bufsz(void);
 void c12_peek_xostream(sqfs_ostream_t *s, size_t *inbuf_used);
 size_t c12_xostream_bufsz(void);
+void c12_peek_tar(sqfs_dir_iterator_t *it, int *state, unsigned long long *record_size,
+		  unsigned long long *file_size, unsigned long long *offset, char *sparse, size_t cap);
 
 /* ------------------------------------------------------------------ OS script */
 enum { EV_PART, EV_EINTR, EV_ERR, EV_ZERO };
@@ -182,8 +187,8 @@ static unsigned char gen_byte(int mode, unsigned long long v)
 	}
 }
 
-/* "-" | hex | g<seed>:<len>:<mode>; returns length or -1 */
-static long parse_data(const char *t, unsigned char **out)
+/* "-" | hex | g<seed>:<len>:<mode> ; returns length or -1 */
+static long parse_data1(const char *t, unsigned char **out)
 {
 	if (t[0] == 'g') {
 		unsigned long long seed, x; size_t len, i; int mode;
@@ -199,6 +204,25 @@ static long parse_data(const char *t, unsigned char **out)
 		return (long)len;
 	}
 	return hex_decode_tok(t, out, 1);
+}
+
+/* <piece>+<piece>+... : the concatenation of the pieces */
+static long parse_data(const char *t, unsigned char **out)
+{
+	char *cp, *p, *save = NULL; unsigned char *acc = NULL; long total = 0;
+	if (!strchr(t, '+')) return parse_data1(t, out);
+	cp = strdup(t); if (!cp) abort();
+	acc = malloc(1); if (!acc) abort();
+	for (p = strtok_r(cp, "+", &save); p; p = strtok_r(NULL, "+", &save)) {
+		unsigned char *piece; long n = parse_data1(p, &piece);
+		if (n < 0) { free(acc); free(cp); return -1; }
+		acc = realloc(acc, (size_t)(total + n) + 1); if (!acc) abort();
+		memcpy(acc + total, piece, (size_t)n); total += n;
+		free(piece);
+	}
+	free(cp);
+	*out = acc;
+	return total;
 }
 
 static int parse_script(char *t)
@@ -240,6 +264,39 @@ static int devnull(void)
 {
 	int fd = open("/dev/null", O_RDWR);
 	if (fd < 0) { perror("/dev/null"); exit(3); }
+	return fd;
+}
+
+/* The descriptor handed to the stream constructors.  No data ever flows through it (read/write/lseek/ftruncate are
+ * wrapped), but the code under test may look at what kind of object it is (fstat, isatty): C12_FDTYPE selects
+ * n = /dev/null (character device), p = pipe, s = socket, f = regular file, t = terminal (pty master). */
+static int g_fdtype = 'n';
+
+static int stream_fd(int for_write)
+{
+	int fd = -1, pfd[2];
+	switch (g_fdtype) {
+	case 'p':
+		if (pipe(pfd) != 0) { perror("pipe"); exit(3); }
+		fd = pfd[for_write ? 1 : 0]; close(pfd[for_write ? 0 : 1]);
+		break;
+	case 's':
+		if (socketpair(AF_UNIX, SOCK_STREAM, 0, pfd) != 0) { perror("socketpair"); exit(3); }
+		fd = pfd[0]; close(pfd[1]);
+		break;
+	case 'f': {
+		char path[] = "/tmp/verif_c12_fd_XXXXXX";
+		fd = mkstemp(path);
+		if (fd < 0) { perror("mkstemp"); exit(3); }
+		unlink(path);
+		break; }
+	case 't':
+		fd = posix_openpt(O_RDWR | O_NOCTTY);
+		if (fd < 0) fd = devnull();             /* no pty available: fall back, reported by `fdtype` */
+		break;
+	default:
+		fd = devnull();
+	}
 	return fd;
 }
 
@@ -294,21 +351,22 @@ static void print_ostream(sqfs_ostream_t *o)
 	unsigned long long sp = 0, sz = 0;
 	if (o) c12_peek_ostream(o, &sp, &sz);
 	fputs("out=", stdout); dtok(stdout, g_sink, g_sink_len);
-	printf(" size=%llu sparse=%llu", sz, sp);
+	printf(" size=%llu sparse=%llu pos=%zu", sz, sp, g_sink_pos);
 }
 
 static sqfs_ostream_t *open_ostream(const char *fl)
 {
-	sqfs_ostream_t *o; int fd = devnull();
-	if (sqfs_ostream_open_handle(&o, "out", fd, fl[0] == 'n' ? SQFS_FILE_OPEN_NO_SPARSE : 0)) { close(fd); return NULL; }
+	sqfs_ostream_t *o; int fd = stream_fd(1);
+	if (sqfs_ostream_open_handle(&o, "out", fd, (fl[0] == 'n' || fl[0] == 'N') ? SQFS_FILE_OPEN_NO_SPARSE : 0)) { close(fd); return NULL; }
 	return o;
 }
 
 static int do_ostream(char *fl, char *ops, char *sc)
 {
 	sqfs_ostream_t *o; char *p, *save = NULL; int rc = 0; size_t idx = 0;
+	int cont = (!strcmp(fl, "S") || !strcmp(fl, "N"));   /* the client keeps calling after a failure */
 	reset_os();
-	if ((strcmp(fl, "s") && strcmp(fl, "n")) || parse_script(sc)) return -1;
+	if ((strcmp(fl, "s") && strcmp(fl, "n") && !cont) || parse_script(sc)) return -1;
 	/* validate ops first */
 	{ char *cp = strdup(ops), *q, *s2 = NULL; int bad = 0;
 	  if (strcmp(ops, "-")) for (q = strtok_r(cp, ",", &s2); q; q = strtok_r(NULL, ",", &s2)) {
@@ -319,14 +377,18 @@ static int do_ostream(char *fl, char *ops, char *sc)
 	  }
 	  free(cp); if (bad) return -1; }
 	if (!(o = open_ostream(fl))) return -1;
+	if (cont) fputs("rcs=", stdout);
 	if (strcmp(ops, "-")) for (p = strtok_r(ops, ",", &save); p; p = strtok_r(NULL, ",", &save)) {
 		if (p[0] == 'f') rc = o->flush(o);
 		else if (p[0] == 'h') rc = o->append(o, NULL, strtoul(p + 1, NULL, 10));
 		else { unsigned char *t; long n = parse_data(p + 1, &t); rc = o->append(o, t, (size_t)n); free(t); }
+		if (cont) { printf("%s%d", idx ? "," : "", rc); idx++; continue; }
 		if (rc) break;
 		idx++;
 	}
-	printf("rc=%d@%zu ", rc, idx); print_ostream(o);
+	if (cont) { if (!idx) putchar('-'); putchar(' '); }
+	else printf("rc=%d@%zu ", rc, idx);
+	print_ostream(o);
 	print_tail();
 	sqfs_drop(o);
 	return 0;
@@ -334,6 +396,20 @@ static int do_ostream(char *fl, char *ops, char *sc)
 
 /* ------------------------------------------------------------------ toy codec (same as Sqfs.IoLoops.toyProc) */
 typedef struct { xfrm_stream_t base; unsigned k; } toy_t;
+
+/* second codec (same as Sqfs.IoLoops.passProc): bytes pass through unchanged, at most 5 per call */
+static int pass_process(xfrm_stream_t *s, const void *in, sqfs_u32 in_size, void *out, sqfs_u32 out_size,
+			sqfs_u32 *in_read, sqfs_u32 *out_written, int mode)
+{
+	toy_t *t = (toy_t *)s;
+	sqfs_u32 m = in_size > 64 ? (in_size + 1) / 2 : (in_size > 5 ? 5 : in_size), n = out_size < m ? out_size : m;
+	memcpy(out, in, n);
+	t->k = (t->k + 1) % 256;
+	*in_read += n; *out_written += n;
+	if (n < m) return XFRM_STREAM_BUFFER_FULL;
+	if (mode == XFRM_STREAM_FLUSH_FULL && n == in_size) return XFRM_STREAM_END;
+	return XFRM_STREAM_OK;
+}
 
 static int toy_process(xfrm_stream_t *s, const void *in, sqfs_u32 in_size, void *out, sqfs_u32 out_size,
 		       sqfs_u32 *in_read, sqfs_u32 *out_written, int mode)
@@ -350,13 +426,15 @@ static int toy_process(xfrm_stream_t *s, const void *in, sqfs_u32 in_size, void 
 
 static void toy_destroy(sqfs_object_t *o) { free(o); }
 
-static toy_t *toy_create(void)
+static toy_t *toy_create_mode(int pass)
 {
 	toy_t *t = calloc(1, sizeof(*t)); if (!t) abort();
 	sqfs_object_init(t, toy_destroy, NULL);
-	t->base.process_data = toy_process;
+	t->base.process_data = pass ? pass_process : toy_process;
 	return t;
 }
+
+static toy_t *toy_create(void) { return toy_create_mode(0); }
 
 static int ops_valid(const char *ops, const char *letters)
 {
@@ -415,7 +493,7 @@ static int do_xistream(char *b, char *bx, char *fl, char *d, char *ops, char *sc
 	if ((n = parse_data(d, &data)) < 0) return -1;
 	if (parse_script(sc)) { free(data); return -1; }
 	g_src = data; g_src_len = (size_t)n;
-	fd = devnull();
+	fd = stream_fd(0);
 	if (sqfs_istream_open_handle(&in, "in", fd, 0)) { close(fd); return -1; }
 	codec = toy_create();
 	x = istream_xfrm_create(in, (xfrm_stream_t *)codec);
@@ -472,7 +550,7 @@ static int do_istream(char *b, char *fl, char *d, char *ops, char *sc)
 	if ((n = parse_data(d, &data)) < 0) return -1;
 	if (parse_script(sc)) { free(data); return -1; }
 	g_src = data; g_src_len = (size_t)n;
-	fd = devnull();
+	fd = stream_fd(0);
 	if (sqfs_istream_open_handle(&in, "in", fd, 0)) { close(fd); return -1; }
 	if (!(o = open_ostream(fl))) { sqfs_drop(in); return -1; }
 	run_client_ops(in, o, ops, &line_num);
@@ -484,12 +562,70 @@ static int do_istream(char *b, char *fl, char *d, char *ops, char *sc)
 	return 0;
 }
 
+/* one archive member through the real tar iterator: tar_open_stream (probe), it->next (header), open_file_ro,
+ * client ops on the member stream (no M: record_to_memory is never applied to a member stream, and its error path calls
+ * get_filename, which dereferences the parent the stream has already dropped), drop, it->next.  The geometry the real read_header decodes must be the one the
+ * scenario line states (the model takes it from the line). */
+/* bx != NULL: the archive stream is the transforming istream (pass-through codec) on top of the file istream */
+static int do_tarstrm(char *b, char *bx, char *fl, char *d, char *rs, char *fs, char *sp, char *ops, char *sc)
+{
+	sqfs_istream_t *in, *arch, *ms = NULL; sqfs_ostream_t *o; unsigned char *data; long n; toy_t *codec = NULL;
+	size_t xoff = 0, xused = 0;
+	sqfs_dir_iterator_t *it; sqfs_dir_entry_t *ent = NULL;
+	size_t line_num = 0, off, used; int eof, fd, rc1, rc2 = 0, have2 = 0, st;
+	unsigned long long rsz, fsz, offs; char spbuf[512];
+	reset_os();
+	if (strtoul(b, NULL, 10) != c12_istream_bufsz() || (bx && strtoul(bx, NULL, 10) != c12_xistream_bufsz())) { puts("bad-B"); return 0; }
+	if ((strcmp(fl, "s") && strcmp(fl, "n")) || !ops_valid(ops, "gRSP")) return -1;
+	if ((n = parse_data(d, &data)) < 0) return -1;
+	if (parse_script(sc)) { free(data); return -1; }
+	g_src = data; g_src_len = (size_t)n;
+	fd = stream_fd(0);
+	if (sqfs_istream_open_handle(&in, "in", fd, 0)) { close(fd); return -1; }
+	if (!(o = open_ostream(fl))) { sqfs_drop(in); return -1; }
+	arch = in;
+	if (bx) {
+		codec = toy_create_mode(1);
+		arch = istream_xfrm_create(in, (xfrm_stream_t *)codec);
+		if (!arch) { sqfs_drop(in); sqfs_drop(codec); sqfs_drop(o); return -1; }
+	}
+	it = tar_open_stream(arch, NULL);
+	if (!it) { if (bx) { sqfs_drop(arch); sqfs_drop(codec); } sqfs_drop(in); sqfs_drop(o); return -1; }
+	rc1 = it->next(it, &ent);
+	printf("n1=%d ", rc1);
+	if (rc1 == 0) {
+		c12_peek_tar(it, &st, &rsz, &fsz, &offs, spbuf, sizeof(spbuf));
+		if (rsz != strtoull(rs, NULL, 10) || fsz != strtoull(fs, NULL, 10) || strcmp(spbuf, sp)) {
+			printf("bad-hdr decoded=%llu,%llu,%s\n", rsz, fsz, spbuf);
+			free(ent); sqfs_drop(it); if (bx) { sqfs_drop(arch); sqfs_drop(codec); } sqfs_drop(in); sqfs_drop(o);
+			return 0;
+		}
+		if (it->open_file_ro(it, &ms) != 0) { puts("bad-open"); free(ent); sqfs_drop(it); if (bx) { sqfs_drop(arch); sqfs_drop(codec); } sqfs_drop(in); sqfs_drop(o); return 0; }
+		run_client_ops(ms, o, ops, &line_num);
+		sqfs_drop(ms);
+		free(ent); ent = NULL;
+		rc2 = it->next(it, &ent); have2 = 1;
+		free(ent);
+	}
+	c12_peek_tar(it, &st, &rsz, &fsz, &offs, spbuf, sizeof(spbuf));
+	if (have2) printf("n2=%d", rc2); else fputs("n2=-", stdout);
+	printf(" it=%d,%llu,%llu ", st, rsz, offs);
+	if (bx) { c12_peek_xistream(arch, &xoff, &xused); printf("xst=%zu,%zu,%u ", xoff, xused, codec->k); }
+	c12_peek_istream(in, &eof, &off, &used);
+	printf("st=%d,%zu,%zu ", eof, off, used); print_ostream(o);
+	print_tail();
+	sqfs_drop(it); if (bx) { sqfs_drop(arch); sqfs_drop(codec); } sqfs_drop(in); sqfs_drop(o);
+	return 0;
+}
+
 int main(void)
 {
+	const char *ft = getenv("C12_FDTYPE");
+	if (ft && ft[0]) g_fdtype = ft[0];
 	char *line = NULL; size_t cap = 0;
 	while (getline(&line, &cap, stdin) > 0) {
-		char *w[8]; int n = 0; char *save = NULL, *p;
-		for (p = strtok_r(line, " \n", &save); p && n < 8; p = strtok_r(NULL, " \n", &save)) w[n++] = p;
+		char *w[12]; int n = 0; char *save = NULL, *p;
+		for (p = strtok_r(line, " \n", &save); p && n < 12; p = strtok_r(NULL, " \n", &save)) w[n++] = p;
 		int r = -1;
 		alarm(120);            /* per scenario: a loop that never ends is a result (SIGALRM), not a hang of the check */
 		if (n == 1 && !strcmp(w[0], "bufsz")) { printf("%zu\n", c12_istream_bufsz()); r = 0; }
@@ -500,6 +636,15 @@ int main(void)
 		else if (n == 7 && !strcmp(w[0], "xistream")) r = do_xistream(w[1], w[2], w[3], w[4], w[5], w[6]);
 		else if (n == 5 && !strcmp(w[0], "xostream")) r = do_xostream(w[1], w[2], w[3], w[4]);
 		else if (n == 1 && !strcmp(w[0], "xbufsz")) { printf("%zu %zu\n", c12_xistream_bufsz(), c12_xostream_bufsz()); r = 0; }
+		else if (n == 9 && !strcmp(w[0], "tarstrm")) r = do_tarstrm(w[1], NULL, w[2], w[3], w[4], w[5], w[6], w[7], w[8]);
+		else if (n == 10 && !strcmp(w[0], "xtarstrm")) r = do_tarstrm(w[1], w[2], w[3], w[4], w[5], w[6], w[7], w[8], w[9]);
+		else if (n == 1 && !strcmp(w[0], "fdtype")) {
+			/* what the stream descriptors of this process really are */
+			struct stat sb; int fd = stream_fd(0);
+			if (fstat(fd, &sb) != 0) { perror("fstat"); exit(3); }
+			printf("%c mode=%o tty=%d\n", g_fdtype, (unsigned)(sb.st_mode & S_IFMT), isatty(fd));
+			close(fd); r = 0;
+		}
 		if (r < 0) puts("bad-op");
 		fflush(stdout);
 	}
